@@ -104,12 +104,18 @@ def classify(case, out):
     """Known finding C03-mgm2-offer-overcount: MGM2's _find_best_offer adds the offerer's whole local gain to
     `current_cost - cost(non-shared constraints)`, counting the current cost of the constraints shared by the
     two partners twice (4 unit tests pin that value).  It can only show in a cycle where an offer was accepted
-    and both partners sent go?=True: the worsening cycle's changed variables must all belong to such a pair."""
+    and both partners sent go?=True: the worsening cycle's changed variables must all belong to such a pair, or -
+    when other, non-adjacent variables moved in the same cycle - the pairs' moves alone must already worsen the cost
+    while the others' moves alone do not."""
     if case["algo"] != "mgm2" or out.info.get("phase") != "cost":
         return None
     pairs = [set(p) for p in out.info.get("coordinated", [])]
     changed = out.info.get("changed", [])
     if changed and any(set(changed) <= p for p in pairs):
+        return "C03-mgm2-offer-overcount"
+    # several movers in the cycle: the moves of the coordinated pairs, taken alone, already worsen the cost and the
+    # other (pairwise non-adjacent) movers, taken alone, do not
+    if pairs and out.info.get("pairs_alone_worsen") and not out.info.get("others_alone_worsen"):
         return "C03-mgm2-offer-overcount"
     return None
 
@@ -141,11 +147,21 @@ def run_case(case):
         for c0, changed in an.moves:
             k0, k1 = costs[c0], costs[c0 + 1]
             if oracles.better(k0, k1, mode) and not oracles.close(k0, k1):
+                # who is responsible: the movers that belong to a coordinated pair of this cycle, or the others?
+                # (movers of one cycle that are not partners share no constraint - checked below - so the two
+                # contributions add up)
+                pairs = an.coordinated.get(c0, set())
+                in_pair = [v for v in changed if any(v in p for p in pairs)]
+                only_pairs = dict(snaps[c0], **{v: snaps[c0 + 1][v] for v in in_pair})
+                only_others = dict(snaps[c0], **{v: snaps[c0 + 1][v] for v in changed if v not in in_pair})
+                kp, ko = oracles.total_cost(desc, only_pairs), oracles.total_cost(desc, only_others)
                 return Outcome(False, "%s(%s): global cost went from %r (cycle %d) to %r (cycle %d); changed %r; "
                                "%r -> %r" % (case["algo"], mode, k0, c0, k1, c0 + 1, changed, snaps[c0], snaps[c0 + 1]),
                                nontrivial, labels,
                                info={"phase": "cost", "changed": changed,
-                                     "coordinated": sorted(map(sorted, an.coordinated.get(c0, [])))})
+                                     "coordinated": sorted(map(sorted, pairs)),
+                                     "pairs_alone_worsen": bool(oracles.better(k0, kp, mode) and not oracles.close(k0, kp)),
+                                     "others_alone_worsen": bool(oracles.better(k0, ko, mode) and not oracles.close(k0, ko))})
             allowed = an.coordinated.get(c0, set())
             for i, a in enumerate(changed):
                 for b in changed[i + 1:]:
